@@ -129,6 +129,14 @@ def requiredMissing (entry : String) (v : J) (evs : List RecEv) (sin : Json := J
     | none => reached && !other.contains ty && other.all (fun o => (Gen.impl.findType o).isSome)
   missing && faultFree && defaultRuns && (entry == "postInbox" || entry == "postOutbox")
 
+/-- the activity lacks an object/target its type needs (whether or not the default side effect got to look) -/
+def missingShape (v : J) : Bool :=
+  let ty := Val.typeName v
+  let needsObject := ["Create", "Update", "Delete", "Follow", "Add", "Remove", "Like", "Undo", "Block"].contains ty
+  let needsTarget := ["Add", "Remove"].contains ty
+  let empty (p : String) : Bool := match Val.rawList v p with | none => true | some [] => true | _ => false
+  (needsObject && empty "object") || (needsTarget && empty "target")
+
 def c10Step (sin sobs : Json) : Option String × String :=
   let all := parseTrace (jget sobs "trace")
   let evs := libTrace sobs
@@ -171,8 +179,10 @@ def c10Step (sin sobs : Json) : Option String × String :=
       let okStatus := match expect with
         | some e => s == e
         | none =>
+          -- 400 only for an activity that lacks what its type needs; otherwise the documented success status
           if missingRequired then s == 400
-          else if entry == "postInbox" then s == 200 || s == 400 else s == 201 || s == 400
+          else if missingShape v then (if entry == "postInbox" then s == 200 || s == 400 else s == 201 || s == 400)
+          else if entry == "postInbox" then s == 200 else s == 201
       let locOk := if s == 201 then
           -- Location = id of the activity that was stored and listed in the outbox
           let loc := match evs.find? fun e => e.name == "writeHeader" with
